@@ -312,11 +312,11 @@ def main():
         if ck.enough():
             break
         ck.guard(run_case, ck, gen_case(ck, 500 if not ck.thorough else 8000))
-    # balls with more than 256 layers (a token on a cycle of 530..600 positions): the layer that is hit has a 9-bit index
+    # balls with more than 256 layers (a token on a cycle of 540..570 positions): the layer that is hit has a 9-bit index
     for _ in range(1 if not ck.thorough else 8):
         if ck.enough():
             break
-        L = ck.rng.randint(530, 560)
+        L = ck.rng.randint(540, 570)  # at least 540: the depth range below needs 257 <= L // 2 - 12 (530..537 made randint raise)
         gens = [[(i + 1) % L for i in range(L)], [(i - 1) % L for i in range(L)]]
         central = [0] * L
         central[0] = 1
